@@ -334,3 +334,51 @@ func Guard2(fn func() string) (msg string) {
 	}()
 	return fn()
 }
+
+// Observe2 is Observe for a reader whose construction may itself read (and
+// panic): mk runs under the same guard.
+func Observe2(mk func() ion.Reader) (vals []model.Value, err error) {
+	err = Guard(func() error {
+		r := mk()
+		var e error
+		vals, e = observeSeq(r, false)
+		if e != nil {
+			return e
+		}
+		return r.Err()
+	})
+	return
+}
+
+// ObserveShallow traverses only the top level: scalars are read, containers
+// are skipped by Next without stepping in (their content is not observed).
+func ObserveShallow(mk func() ion.Reader) (vals []model.Value, err error) {
+	err = Guard(func() error {
+		r := mk()
+		for r.Next() {
+			k, ok := KindOf(r.Type())
+			if !ok {
+				return fmt.Errorf("harness: Next()==true but Type()==%v", r.Type())
+			}
+			if k == model.List || k == model.Sexp || k == model.Struct {
+				v := model.Value{Kind: k, IsNull: r.IsNull()}
+				as, err := r.Annotations()
+				if err != nil {
+					return fmt.Errorf("Annotations: %w", err)
+				}
+				for i := range as {
+					v.Ann = append(v.Ann, SymOf(&as[i]))
+				}
+				vals = append(vals, v)
+				continue
+			}
+			v, err := ObserveCurrent(r)
+			if err != nil {
+				return err
+			}
+			vals = append(vals, v)
+		}
+		return r.Err()
+	})
+	return
+}
